@@ -190,6 +190,7 @@ func c08patch(c *core.Ctx, r *core.Reporter) {
 	st := lamT.Underlying().(*types.Struct)
 	// the existing lambda: a value loaded from a map lookup (lambdas[name]); stores through FieldAddr of it
 	assigned := map[string]bool{}
+	storeAt := map[string]*ssa.Store{}
 	whole := false
 	for _, b := range fn.Blocks {
 		for _, in := range b.Instrs {
@@ -201,6 +202,7 @@ func c08patch(c *core.Ctx, r *core.Reporter) {
 			case *ssa.FieldAddr:
 				if core.IsNamed(a.X.Type(), core.SlipPath, "Lambda") && fromMapLookup(a.X, 0) {
 					assigned[fieldName(a)] = true
+					storeAt[fieldName(a)] = s
 				}
 			default:
 				// *existing = *new
@@ -214,9 +216,42 @@ func c08patch(c *core.Ctx, r *core.Reporter) {
 		r.Undecided(rule, "slip.(Package).DefLambda", c.Pos(fn.Pos()), "no in-place patch of an existing Lambda found (shape changed)")
 		return
 	}
+	// the patch branch starts at the store that dominates the others; every field's store must lie on every path from there to the return
+	var entry *ssa.Store
+	for _, s1 := range storeAt {
+		domAll := true
+		for _, s2 := range storeAt {
+			if s1 != s2 && !instrDominates(s1, s2) {
+				domAll = false
+			}
+		}
+		if domAll {
+			entry = s1
+		}
+	}
 	for i := 0; i < st.NumFields(); i++ {
 		f := st.Field(i).Name()
-		r.Decide(whole || assigned[f], rule, "slip.(Package).DefLambda|Lambda."+f, c.Pos(fn.Pos()), fmt.Sprintf("field %s copied into the existing placeholder: %v", f, whole || assigned[f]))
+		ok := whole || assigned[f]
+		detail := fmt.Sprintf("field %s copied into the existing placeholder: %v", f, ok)
+		if ok && !whole && entry != nil && storeAt[f] != entry {
+			idx := 0
+			for k, in := range entry.Block().Instrs {
+				if in == ssa.Instruction(entry) {
+					idx = k
+				}
+			}
+			sidx := 0
+			for k, in := range storeAt[f].Block().Instrs {
+				if in == ssa.Instruction(storeAt[f]) {
+					sidx = k
+				}
+			}
+			if escapes(entry.Block(), idx, map[*ssa.BasicBlock]int{storeAt[f].Block(): sidx}) {
+				ok = false
+				detail = fmt.Sprintf("field %s is copied only on some paths of the patch branch (conditionally): a stale value survives a redefinition", f)
+			}
+		}
+		r.Decide(ok, rule, "slip.(Package).DefLambda|Lambda."+f, c.Pos(fn.Pos()), detail)
 	}
 }
 
